@@ -87,7 +87,7 @@ CLAIMED['C07'] = {
             'is_dirty() returned false, with no state change in between.',
     'design_ref': '§5.4, §6 C07',
     'note': 'Bounded stand-in, labelled exploration, never counted as proved: close_until calls rule functions behind extern "Rust" and loop code over runtime iterators '
-            '(canonicalize, apply_*), which neither Verus nor Kani can take. Programs are sampled (the probes). Found F3 (see known-findings.json).',
+            '(canonicalize, apply_*), which neither Verus nor Kani can take. Programs are sampled (the probes). Found F3 (fixed in /repo baef87b, see known-findings.json).',
     'technique': 'bounded native execution of the executable contract of the generated close_until on emitted probe modules (labelled bounded)',
 }
 CLAIMED['C11'] = {
